@@ -407,7 +407,7 @@ def run(ctx):
 
     # ---------------------------------------------------------------- R12
     r = ctx.rule("C19-R12", "UNIT", "'redraws no more often than the interval': the redraw deadline is kept in milliseconds (the interval's unit) - every value stored in it comes from "
-                 "the millisecond clock, never from time.time() (seconds) or a field holding it", reference=2)
+                 "the millisecond clock, never from time.time() (seconds) or a field holding it", reference=3)
     ms_fn = next((n_ for n_, m_ in methods.items() if "millisecond" in n_), None)
     ctx.require(ms_fn is not None, "the millisecond clock helper of ProgressIndicator was not found")
     # the deadline field: the attribute compared with the millisecond clock
